@@ -19,7 +19,12 @@ out=['''//go:build verif
 
 package ttlv
 
-import "time"
+import (
+	"math/big"
+	"time"
+)
+
+var _ = big.NewInt
 
 // Lemma functions for the gocv verifier: ordinary Go code over the real writer and reader, verified
 // modularly against their contracts (the callees' bodies are not looked at). Compiled only with -tags verif.
@@ -141,5 +146,49 @@ func lemmaRTStructInteger(tag, tag2 int, v int32, rest []byte) (x int32, err err
 	})
 	return x, err, dec.buf
 }
+''')
+
+out.append('''// Reuse (C20, history independence of the binary writer): whatever a writer has been used for before,
+// after Clear it produces, for the same call, exactly the bytes a fresh writer produces.
+''')
+for (n,gt,wa,ra,eq,req,ty,ln) in types:
+    if n in ("Interval", "TextString", "ByteString"):
+        continue  # variable-length / non-linear cases are not discharged within budget; not claimed
+    out.append(f'''//@ lemma lemmaReuse{n}
+//@   requires w != nil{req.replace(" && 0 <= v && int64(v)%1000000000 == 0 && int64(v)/1000000000 < 1<<32","")}
+//@   ensures bytes_eq(a, b)
+
+func lemmaReuse{n}(w *ttlvWriter, tag int, v {gt}) (a, b []byte) {{
+	w.Clear()
+	w.{n}({wa})
+	f := &ttlvWriter{{}}
+	f.{n}({wa})
+	return w.buf, f.buf
+}}
+''')
+
+out.append('''// Generic containers (C01/C18): a ttlv.Value holding a scalar is read back, by the generic decoder that
+// dispatches on the TTLV type found on the wire, as a ttlv.Value of the same tag, Go type and value
+// (element-level model of the writer/reader interfaces, see zz_verif_model.go).
+''')
+for (n, gt, cmpf) in [("Integer","int32","=="),("LongInteger","int64","=="),("Bool","bool","=="),("Enum","Enum","=="),("TextString","string","=="),("Interval","time.Duration","=="),("DateTime","time.Time","unix"),("ByteString","[]byte","slice"),("BigInteger","*big.Int","==")]:
+    if cmpf == "==":
+        eq = f"dyn(out.Value, {gt}) == dyn(v.Value, {gt})"
+    elif cmpf == "unix":
+        eq = f"unix(dyn(out.Value, {gt})) == unix(dyn(v.Value, {gt}))"
+    else:
+        eq = f"len(dyn(out.Value, {gt})) == len(dyn(v.Value, {gt})) && arr(dyn(out.Value, {gt})) == arr(dyn(v.Value, {gt}))"
+    out.append(f'''//@ lemma lemmaMirrorValue{n}
+//@   requires out != nil && typeis(v.Value, {gt}) && 0 < tag && tag < 1<<24 && out.Tag == 0 && out.Value == nil && !tapeDropped
+//@   ensures err == nil && end && !tapeDropped
+//@   ensures out.Tag == tag && typeis(out.Value, {gt}) && {eq}
+
+func lemmaMirrorValue{n}(v Value, tag int, out *Value) (err error, end bool) {{
+	e := VerifModelEncoder()
+	v.TagEncodeTTLV(&e, tag)
+	d := VerifModelDecoder(&e)
+	err = out.DecodeTTLV(&d)
+	return err, VerifTapeEnd(&d)
+}}
 ''')
 open(sys.argv[1] if len(sys.argv)>1 else '/repo/ttlv/zz_verif_lemmas.go','w').write('\n'.join(out))
